@@ -31,6 +31,11 @@ def load_contracts():
         for k, (n, depth) in tuning.SHARDS.items():
             if k in REGISTRY:
                 REGISTRY[k].shards, REGISTRY[k].shard_depth = n, depth
+        for modname, flags in getattr(tuning, "MODULE_FLAGS", {}).items():
+            for c in REGISTRY.values():
+                if getattr(c, "defined_in", None) == modname:
+                    for fk, fv in flags.items():
+                        setattr(c, fk, fv)
         for k in getattr(tuning, "THOROUGH_ONLY", ()):
             if k in REGISTRY:
                 REGISTRY[k].thorough_only = True
